@@ -4,6 +4,7 @@ package main
 
 import (
 	"fmt"
+	"go/ast"
 	"go/constant"
 	"go/token"
 	"go/types"
@@ -384,6 +385,8 @@ func (ex *Exec) sliceWF(v *Term) *Term {
 	z := vc.IntConst(0)
 	return And(vc.Cmp("<=", z, vc.SliceLen(v), types.Typ[types.Int]), vc.Cmp("<=", vc.SliceLen(v), vc.SliceCap(v), types.Typ[types.Int]),
 		vc.Cmp("<=", z, vc.SliceOff(v), types.Typ[types.Int]),
+		vc.Cmp("<=", vc.SliceOff(v), vc.IntBig(new(big.Int).Lsh(big.NewInt(1), 61)), types.Typ[types.Int]),
+		vc.Cmp("<=", vc.SliceCap(v), vc.IntBig(new(big.Int).Lsh(big.NewInt(1), 61)), types.Typ[types.Int]),
 		Implies(Eq(vc.SlicePtr(v), IntLit(0)), And(Eq(vc.SliceLen(v), z), Eq(vc.SliceCap(v), z))))
 }
 
@@ -756,34 +759,51 @@ func (ex *Exec) runBody(fr *frame, st0 *State, reach0 *Term) []*exit {
 }
 
 func (ex *Exec) checkAnchor(fn *ssa.Function, b *ssa.BasicBlock, lc *LoopContract) {
-	// the source line of the loop header must contain the anchor text
-	var pos token.Pos
-	for _, in := range b.Instrs {
-		if in.Pos().IsValid() {
-			pos = in.Pos()
-			break
-		}
-	}
-	if !pos.IsValid() {
-		for _, s := range b.Succs {
-			for _, in := range s.Instrs {
-				if in.Pos().IsValid() {
-					pos = in.Pos()
-					break
-				}
-			}
-			if pos.IsValid() {
-				break
-			}
-		}
-	}
-	if !pos.IsValid() {
+	// the source line of the loop statement must contain the anchor text
+	syn := fn.Syntax()
+	if syn == nil {
 		return
 	}
-	p := ex.eng.fset.Position(pos)
+	be := backEdges(fn)
+	body := loopBlocks(fn, b, be)
+	var poss []token.Pos
+	for _, blk := range fn.Blocks {
+		if !body[blk.Index] || blk == b {
+			continue
+		}
+		for _, in := range blk.Instrs {
+			if _, isDbg := in.(*ssa.DebugRef); isDbg {
+				continue
+			}
+			if in.Pos().IsValid() {
+				poss = append(poss, in.Pos())
+			}
+		}
+	}
+	if len(poss) == 0 {
+		return
+	}
+	var best ast.Node
+	ast.Inspect(syn, func(n ast.Node) bool {
+		switch n.(type) {
+		case *ast.ForStmt, *ast.RangeStmt:
+			for _, p := range poss {
+				if p < n.Pos() || p > n.End() {
+					return true
+				}
+			}
+			if best == nil || (n.End()-n.Pos()) < (best.End()-best.Pos()) {
+				best = n
+			}
+		}
+		return true
+	})
+	if best == nil {
+		panic(unsupported(fmt.Sprintf("loop contract %s#%d (%s:%d): no loop statement found for the SSA loop", lc.Func, lc.Index, lc.File, lc.Line)))
+	}
+	p := ex.eng.fset.Position(best.Pos())
 	line := ex.eng.sourceLine(p.Filename, p.Line)
-	prev := ex.eng.sourceLine(p.Filename, p.Line-1)
-	if !strings.Contains(line, lc.Anchor) && !strings.Contains(prev, lc.Anchor) {
+	if !strings.Contains(line, lc.Anchor) {
 		panic(unsupported(fmt.Sprintf("loop contract %s#%d (%s:%d): anchor %q not found at %s:%d (%q)", lc.Func, lc.Index, lc.File, lc.Line, lc.Anchor, p.Filename, p.Line, strings.TrimSpace(line))))
 	}
 }
